@@ -53,9 +53,10 @@ Section Model.
   Context {T : Type} {NT : Num T}.
 
   Record rentry := { re_crop : lstr; re_var : lstr; re_saat : Z; re_ernte : Z; re_odu : T; re_jn : T; re_ertr : T }.
-  (* entries in rotation order, day of year of the first harvest (ITAG), and the entry written behind the
-     last one of the field: crop SM, SAAT1 = SAAT2 = last sowing + 365 (input.go:588-594) *)
-  Record rotation := { ro_entries : list rentry; ro_itag : Z; ro_sentinel : Z }.
+  (* entries in rotation order, day of year of the first harvest (ITAG), and what is written behind the
+     last row of every block of rows of the field: crop SM, SAAT1 = SAAT2 = last sowing + 365
+     (input.go:588-594) as (array index, value); a later row overwrites the crop, not SAAT1/SAAT2 *)
+  Record rotation := { ro_entries : list rentry; ro_itag : Z; ro_sentinels : list (nat * Z) }.
 
   (* the strictly increasing date check (:400-417): last date seen, 0 = none yet *)
   Definition check_date (cent : Z) (f : datefmt) (last : Z) (d : lstr) : res Z :=
@@ -64,14 +65,22 @@ Section Model.
     | Some (_, n) => if last =? 0 then Ok n else if n <=? last then Crash else Ok n
     end.
 
-  (* the rows of the field, one after the other; [k] = number of entries read so far *)
-  Fixpoint scan_rows (cent : Z) (f : datefmt) (pkt : lstr) (rows : list rview) (acc : list rentry) (itag last : Z)
-      : res (list rentry * Z) :=
+  (* the two nested loops (:419-596).  [inner = false]: the outer loop has just read the row: an invalid
+     row (no id cell) ends the reading, a row of another field is skipped.  [inner = true]: the row was read
+     at the end of the inner loop body: if it is not a valid row of the field the block ends — the entry
+     behind it is written — and the row is dropped (the outer loop reads the next one). *)
+  Fixpoint scan_rows (cent : Z) (f : datefmt) (pkt : lstr) (inner : bool) (rows : list rview)
+      (acc : list rentry) (sent : list (nat * Z)) (itag last : Z) : res (list rentry * list (nat * Z) * Z) :=
+    let close := match acc with e :: _ => sent ++ [(List.length acc, re_saat e + 365)] | [] => sent end in
     match rows with
-    | [] => Ok (rev acc, itag)
+    | [] => Ok (rev acc, (if inner then close else sent), itag)
     | r :: rest =>
-        if negb (rv_valid r) then Ok (rev acc, itag) else           (* the outer loop ends at the first row without an id cell *)
-        if negb (leqb (rv_id r) pkt) then scan_rows cent f pkt rest acc itag last else
+        let mine := rv_valid r && leqb (rv_id r) pkt in
+        if negb mine then
+          if inner then scan_rows cent f pkt false rest acc close itag last
+          else if negb (rv_valid r) then Ok (rev acc, sent, itag)
+          else scan_rows cent f pkt false rest acc sent itag last
+        else
         let first := match acc with [] => true | _ => false end in
         let* crop := crash_if_none (rv_crop r) in
         let* lastS := if first then Ok last
@@ -82,17 +91,17 @@ Section Model.
         let* jn := crash_if_none (let? t := rv_jn r in val_as_float t) in
         let* ertr := if first then crash_if_none (let? t := rv_res r in val_as_float t) else Ok zero in
         let itag' := if first then match date_converter cent f hs with Some (z, _) => z | None => 0 end else itag in
-        scan_rows cent f pkt rest
+        scan_rows cent f pkt true rest
           ({| re_crop := crop; re_var := rv_var r; re_saat := if first then 0 else lastS; re_ernte := lastH;
-              re_odu := odu; re_jn := div jn (ofZ 100); re_ertr := ertr |} :: acc) itag' lastH
+              re_odu := odu; re_jn := div jn (ofZ 100); re_ertr := ertr |} :: acc) sent itag' lastH
     end.
 
   Definition read_rows (cent : Z) (f : datefmt) (pkt : lstr) (rows : list rview) : res rotation :=
-    let* r := scan_rows cent f pkt rows [] 0 0 in
-    let '(es, itag) := r in
-    match rev es with
+    let* r := scan_rows cent f pkt false rows [] [] 0 0 in
+    let '(es, sent, itag) := r in
+    match es with
     | [] => Err                                                       (* :597 Field_ID not found *)
-    | e :: _ => Ok {| ro_entries := es; ro_itag := itag; ro_sentinel := re_saat e + 365 |}
+    | _ => Ok {| ro_entries := es; ro_itag := itag; ro_sentinels := sent |}
     end.
 
   (* the two encodings: header line, then rows *)
